@@ -8,3 +8,4 @@ import ReuseVerif.Spec.Glob
 import ReuseVerif.Model.Dep5
 import ReuseVerif.Spec.Dep5
 import ReuseVerif.Model.Download
+import ReuseVerif.Spec.Download
